@@ -28,7 +28,14 @@ type c06Conn struct {
 }
 
 func c06Scenario(c *choice.Ctx, rep *report.R, prop string, nCalls, depth int) {
-	own := env.InstallOwn(0xA5, vRace)
+	// Also without the ownership hook: with it every recycled buffer is filled with a pattern that never decodes, which hides a
+	// reader that takes a partly received reply for a whole one (what is left in the buffer from the previous, equally long
+	// reply then makes it decode, as in production).
+	var own *env.Own
+	if c.Choose(2, "recycled-buffers-keep-their-content") == 0 {
+		own = env.InstallOwn(0xA5, vRace)
+		defer env.UninstallOwn()
+	}
 	defer env.UninstallOwn()
 	d := env.NewDialer("tcp")
 	tr := NewReuseConnTransport(ReuseConnOpts{DialContext: d.Dial, IdleTimeout: 10 * time.Second})
